@@ -772,6 +772,10 @@ func (env *SpecEnv) call(e *SExpr) specVal {
 	return specVal{}
 }
 
+// specBodyDepth > 0 while the body of a spec function is being translated: its terms
+// mention the function's parameters and must not leak into unit-level facts.
+var specBodyDepth int
+
 // callSpec applies a spec function, declaring/defining it on first use.
 func (env *SpecEnv) callSpec(sf *SpecFunc, args []specVal) specVal {
 	fx := env.fx
@@ -865,7 +869,9 @@ func (env *SpecEnv) callSpec(sf *SpecFunc, args []specVal) specVal {
 			// declare first so that the body can refer to the function, then turn
 			// the declaration into a define-fun-rec
 			fx.c.DeclareFun(name, sorts, fx.e.sortOf(rt))
+			specBodyDepth++
 			body := inner.expr(sf.Body)
+			specBodyDepth--
 			d := fx.c.declIdx[name]
 			d.params, d.args, d.body, d.rec = params, nil, body.t, true
 			// move behind everything declared while translating the body
@@ -879,7 +885,9 @@ func (env *SpecEnv) callSpec(sf *SpecFunc, args []specVal) specVal {
 				env.fail("spec %s reads a heap component that is not listed in its reads clause", sf.Name)
 			}
 		} else {
+			specBodyDepth++
 			body := inner.expr(sf.Body)
+			specBodyDepth--
 			fx.c.DefineFun(name, params, fx.e.sortOf(rt), body.t, false)
 			if strings.Contains(body.t.String(), "HSPEC_") {
 				env.fail("spec %s reads a heap component that is not listed in its reads clause", sf.Name)
